@@ -227,6 +227,9 @@ class NumpyCodegenMapper(CachedMapper[str, Never, []]):
                                            attr=cast("str", e_np.dtype.name)),
                         args=[_constant(value=str(e_np))],
                         keywords=[])
+                elif (type(e) in (int, float)) and e < 0:
+                    # ast.unparse would print -3 ** x for the base -3
+                    return ast.UnaryOp(ast.USub(), _constant(-e))
                 else:
                     return _constant(e)
 
